@@ -117,6 +117,7 @@ func init() {
 			ruleOverrideOnlyRead(c)
 			ruleInternLookup(c)
 			ruleNullCodecs(c)
+			ruleNullValue(c)
 		},
 	})
 }
